@@ -508,6 +508,16 @@ fn plain_cases(tier: Tier) -> Vec<Case> {
             }
         }
     }
+    // pings from several tasks at once: each one answers for its own place in the mailbox
+    for &mb in &mailboxes {
+        for yields in [0u8, 1] {
+            for &x in &around {
+                v.push(make_case(&[vec![L::Ping, L::CallAddr], vec![x, L::Ping]], mb, yields, None));
+                v.push(make_case(&[vec![L::Ping], vec![L::Ping], vec![x, L::Ping]], mb, yields, Some(4)));
+                v.push(make_case(&[vec![x, L::Ping], vec![x, L::Ping]], mb, yields, None));
+            }
+        }
+    }
     // handlers that post letters to their own actor
     for &mb in &mailboxes {
         for &x in &around {
